@@ -120,8 +120,8 @@ def make_case(case_seed, fmt, feat):
     # orthonormal orbitals: C = S^-1/2 Q
     s = compute_overlap(obasis, atcoords)
     w, v = np.linalg.eigh(s)
-    if w.min() < 1e-6:
-        return None
+    if w.min() < 1e-3:
+        return None  # nearly dependent functions: orbital coefficients of 1e3 and more, whose printed digits (8 in FCHK/WFN) no longer resolve the orbitals
     q, _ = np.linalg.qr(np.random.default_rng(case_seed + 3).normal(size=(nb, nb)))
     c = (v / np.sqrt(w)) @ v.T @ q
     nelec_max = 2 * nb
